@@ -31,6 +31,8 @@ class Poly:
         return Poly({((name, 1),): Fraction(1)})
 
     def __add__(self, o):
+        if not isinstance(o, Poly):
+            o = Poly.const(o)
         r = dict(self.t)
         for m, c in o.t.items():
             r[m] = r.get(m, 0) + c
@@ -50,6 +52,8 @@ class Poly:
         return tuple(sorted((k, e) for k, e in d.items() if e != 0))
 
     def __mul__(self, o):
+        if not isinstance(o, Poly):
+            o = Poly.const(o)
         r = {}
         for m1, c1 in self.t.items():
             for m2, c2 in o.t.items():
